@@ -140,6 +140,12 @@ func genC07Maps(level int) []*MapScen {
 		// the grown chain has an overflow bucket (its keys must still be visited by a traversal of the old table)
 		add(&MapScen{Rel: RelSD, NKeys: 2, Init: []int{0, 1}, Table: TGrowArmed, Chain: 2, Threads: [][]MIn{{opRange}, {on(opStore, 0)}}, ExpectGrow: true})
 		add(&MapScen{Rel: RelSD, NKeys: 2, Init: []int{0, 1}, Table: TGrowArmed, Chain: 2, FillFirst: true, Threads: [][]MIn{{opRange}, {on(opStore, 0)}}, ExpectGrow: true})
+		// traversals of a map that has grown and shrunk back before
+		for _, w := range []MIn{opStore, opDelete} {
+			add(&MapScen{Rel: RelSD, NKeys: 3, Init: []int{1, 1, 0}, Table: TPlain, Cycled: true, Threads: [][]MIn{{opRange}, {on(w, 0)}}})
+			add(&MapScen{Rel: RelDD, NKeys: 3, Init: []int{1, 1, 0}, Table: TChain2, Cycled: true, Threads: [][]MIn{{opRange}, {on(w, 2)}}})
+		}
+		add(&MapScen{Rel: RelSD, NKeys: 2, Init: []int{0, 1}, Table: TGrowArmed, Cycled: true, Threads: [][]MIn{{opRange}, {on(opStore, 0)}}, ExpectGrow: true})
 		// keys (and bystanders) that change their bucket when the table is replaced
 		add(&MapScen{Rel: RelSplit, NKeys: 2, Init: []int{0, 1}, Table: TGrowArmed, Threads: [][]MIn{{opRange}, {on(opStore, 0)}}, ExpectGrow: true})
 		if level >= 1 {
@@ -204,6 +210,12 @@ func genC08Maps(level int) []*MapScen {
 		// Clear against writers
 		for _, w := range writeOps {
 			add(&MapScen{Rel: RelSS, NKeys: 2, Init: []int{1, 0}, Table: TPlain, Threads: [][]MIn{{opClear}, {on(w, 0)}}})
+		}
+		// the same on a map that has grown and shrunk back before (used counter stripes, a resize history)
+		for _, w := range []MIn{opStore, opDelete, opLaD, opLoS, opClear} {
+			add(&MapScen{Rel: RelSS, NKeys: 2, Init: []int{1, 0}, Table: TPlain, Cycled: true, Threads: [][]MIn{{on(opStore, 1)}, {on(w, 0)}}})
+			add(&MapScen{Rel: RelDD, NKeys: 2, Init: []int{0, 1}, Table: TGrowArmed, Cycled: true, Threads: [][]MIn{{on(opStore, 0)}, {on(w, 1)}}, ExpectGrow: true})
+			add(&MapScen{Rel: RelDD, NKeys: 2, Init: []int{1, 1}, Table: TShrinkArmed, Cycled: true, Threads: [][]MIn{{on(opDelete, 0)}, {on(w, 1)}}, ExpectShrink: true})
 		}
 		if level >= 1 {
 			for _, w := range []MIn{opStore, opDelete} {
